@@ -500,6 +500,18 @@ func variants(tw *tworld, caps *captures, thorough bool) []variant {
 			}
 		}
 	}
+	// a later announcement of the same origin over the same routers in which the
+	// delivering peer signs different labels (same delay) for its own hop, after
+	// the earlier one was accepted: the route must carry what was signed last.
+	if len(ch) > 0 {
+		for _, dl := range []m.SwitchLabel{2, 300} {
+			own := signRecord(via, caps.f2, chT2[0].att.Delay, chT2[0].att.ForwardLabel+dl, chT2[0].att.ReturnLabel+dl, chT2[0].att.NextAttachment)
+			vs = append(vs, variant{name: fmt.Sprintf("after-genuine/later-announcement-relabelled-by-delivering-peer(+%d)", dl), raw: caps.f2.withAppendix(own), via: via, expectAccept: 0, afterGenuine: true, attackerOwn: [][]byte{own}})
+		}
+		own := signRecord(via, caps.f2, chT2[0].att.Delay+3, chT2[0].att.ForwardLabel, chT2[0].att.ReturnLabel, chT2[0].att.NextAttachment)
+		vs = append(vs, variant{name: "after-genuine/later-announcement-with-other-delay-of-delivering-peer", raw: caps.f2.withAppendix(own), via: via, expectAccept: 0, afterGenuine: true, attackerOwn: [][]byte{own}})
+		vs = append(vs, variant{name: "after-genuine/later-announcement-untouched", raw: append([]byte(nil), caps.f2.raw...), via: via, expectAccept: 1, afterGenuine: true})
+	}
 	// deliver over a different peer's link.
 	add("delivered-over-other-link-Y", append([]byte(nil), p.raw...), tw.y, -1)
 	add("delivered-over-other-link-W", append([]byte(nil), p.raw...), tw.wn, -1)
